@@ -333,9 +333,9 @@ const char* event_name(int k) {
 
 bool owns(const std::string& prop, const std::string& c) {
     static const std::set<std::string> c07 = {"task-ran-twice", "task-run-after-destroy", "task-destroyed-while-running", "task-destroyed-twice", "task-leaked", "task-lost",
-                                              "task-began-after-stop", "order-violated", "pool-deadlock", "terminate"};
+                                              "task-began-after-stop", "order-violated", "pool-deadlock", "terminate", "unexpected-exception"};
     static const std::set<std::string> c08 = {"stop-hang", "threads-after-stop", "task-running-after-stop", "task-not-destroyed-by-stop", "restart-failed", "too-many-threads",
-                                              "pool-deadlock", "terminate"};
+                                              "pool-deadlock", "terminate", "unexpected-exception"};
     if (prop == "C07") return c07.count(c) > 0 || c.rfind("asan:", 0) == 0;
     if (prop == "C08") return c08.count(c) > 0 || c.rfind("asan:", 0) == 0;
     if (prop == "C15") return c.rfind("tsan:", 0) == 0;
@@ -384,7 +384,13 @@ void execute(const Json& program, const sim::Config& cfg, const std::string& pro
     });
     Registry reg;
     R = &reg;
-    sim::run(cfg, [&] { body(program); });
+    sim::run(cfg, [&] {
+        try {
+            body(program);
+        } catch (const std::exception& e) {  // valid use of the API must not throw: an escaping exception is an outcome to report, not a harness error
+            sim::violation("unexpected-exception", std::string("exception escaped from tulz under valid use: ") + e.what());
+        }
+    });
     analyse(program, reg);
     R = nullptr;
     g_extra[program.get("expiry", -1) < 0 ? "runs_non_expiring" : "runs_expiring"]++;
